@@ -59,6 +59,10 @@ def same_object(a, b) -> bool:
     return type(a) is type(b) and (a == b or (a != a and b != b))
 
 
+_COMPILED: Dict[Any, Any] = {}
+_KEEP: List[Any] = []      # keeps environments alive so that id(env) stays unique
+
+
 def rec_compile(jp, q: str, env=None, extra: Optional[Dict[str, Any]] = None) -> Dict[str, Any]:
     rec: Dict[str, Any] = {"op": "compile", "q": core.enc_text(q)}
     if extra:
@@ -81,13 +85,22 @@ def rec_find(jp, q: str, doc, env=None, extra: Optional[Dict[str, Any]] = None,
                            "doc": edoc if edoc is not None else core.enc_value(doc)}
     if extra:
         rec.update(extra)
-    try:
-        compiled = (env or jp).compile(q)
-    except Exception as err:  # noqa: BLE001
-        _err(rec, err, jp.JSONPathError)
-        rec["stage"] = "compile"
-        rec["locs"] = []
-        return rec
+    # a query is compiled once per (environment, text) and re-applied to every later document:
+    # state leaking from one application into the next shows up as a wrong result
+    key = (id(env) if env is not None else 0, q)
+    compiled = _COMPILED.get(key)
+    if compiled is None:
+        try:
+            compiled = (env or jp).compile(q)
+        except Exception as err:  # noqa: BLE001
+            _err(rec, err, jp.JSONPathError)
+            rec["stage"] = "compile"
+            rec["locs"] = []
+            return rec
+        if len(_COMPILED) > 50000:
+            _COMPILED.clear()
+        _COMPILED[key] = compiled
+        _KEEP.append(env)
     rec["stage"] = "find"
     try:
         nodes = compiled.find(doc)
